@@ -5,7 +5,7 @@ use std::sync::RwLock;
 use std::sync::{Arc, Mutex};
 
 use crate::controls::{Control, RawControl};
-use crate::controls_impl::{build_tag, parse_controls};
+use crate::controls_impl::{build_tag, try_parse_controls};
 use crate::search::SearchItem;
 use crate::RequestId;
 
@@ -68,7 +68,10 @@ fn decode_inner(buf: &mut BytesMut) -> Result<Option<(RequestId, (Tag, Vec<Contr
         Some(tags) => tags,
         None => return Err(decoding_error),
     };
-    let mut maybe_controls = tags.pop().expect("element");
+    let mut maybe_controls = match tags.pop() {
+        Some(tag) => tag,
+        None => return Err(decoding_error),
+    };
     let has_controls = match maybe_controls {
         StructureTag {
             id,
@@ -86,27 +89,38 @@ fn decode_inner(buf: &mut BytesMut) -> Result<Option<(RequestId, (Tag, Vec<Contr
             // but AD puts it outside, where the optional controls belong. This confuses
             // our parser, which doesn't expect the extra sequence element at the end
             // and crashes. This match arm thus ignores the element.
-            maybe_controls = tags.pop().expect("element");
+            maybe_controls = match tags.pop() {
+                Some(tag) => tag,
+                None => return Err(decoding_error),
+            };
             false
         }
         _ => false,
     };
     let (protoop, controls) = if has_controls {
-        (tags.pop().expect("element"), Some(maybe_controls))
+        match tags.pop() {
+            Some(protoop) => (protoop, Some(maybe_controls)),
+            None => return Err(decoding_error),
+        }
     } else {
         (maybe_controls, None)
     };
     let controls = match controls {
-        Some(controls) => parse_controls(controls),
+        Some(controls) => match try_parse_controls(controls) {
+            Some(controls) => controls,
+            None => return Err(decoding_error),
+        },
         None => vec![],
     };
-    let msgid_octets = tags
+    let msgid_octets = match tags
         .pop()
-        .expect("element")
-        .match_class(TagClass::Universal)
+        .and_then(|t| t.match_class(TagClass::Universal))
         .and_then(|t| t.match_id(Types::Integer as u64))
         .and_then(|t| t.expect_primitive())
-        .expect("message id");
+    {
+        Some(octets) if tags.is_empty() => octets,
+        _ => return Err(decoding_error),
+    };
     // MessageID ::= INTEGER (0 .. maxInt): reject negative or oversized values instead of
     // truncating them to an ID which could belong to another operation.
     if msgid_octets.is_empty() || msgid_octets[0] & 0x80 != 0 || msgid_octets.len() > 8 {
